@@ -1028,3 +1028,5 @@ func qlRunCase(line string, caseNo uint64) (ans qlAnswer) {
 	}
 	return ans
 }
+
+func init() { registerWorker("c17worker", c17WorkerMain) }
